@@ -202,10 +202,9 @@ func (e *eval) scalar(lit, kind string, rr []model.Rule, depth int, own string) 
 				return false, r.Name, fmt.Sprintf("%s vs bound %s exclusive=%v", lit, v.Lit, excl)
 			}
 		case "minLength", "maxLength":
-			n := len(str)
-			if !isASCII(str) && abs(n-atoi(v.Lit)) <= 4 {
-				e.amb("non-ASCII string near a length bound (bytes vs characters)")
-			}
+			// the length of a string is its number of characters (code points), as in JSON Schema / OpenAPI,
+			// whose minLength / maxLength the converter fills with the very same numbers
+			n := utf8.RuneCountInString(str)
 			e.boundary(r.Name, n, atoi(v.Lit))
 			if r.Name == "minLength" && n < atoi(v.Lit) {
 				return false, r.Name, fmt.Sprintf("length %d < %s", n, v.Lit)
